@@ -13,6 +13,9 @@ import (
 func init() {
 	props["C16"] = runC16
 	replayers["C16"] = func(c *ctx, a []string) {
+		if c16callersReplay(c, a) { // gw / bg case lines: c16callers.go
+			return
+		}
 		if len(a) == 3 && a[0] == "rebalance" {
 			ini, _ := strconv.Atoi(a[1])
 			var ws, ls []int
@@ -64,12 +67,31 @@ func runC16(c *ctx) {
 		}
 		lmax = 6
 	}
+	// thorough: every weight pair with lengths 0..4; lengths 5 and 6 with the representative weights
+	// (keeps the whole thorough run under ten minutes)
+	rep := ws
+	lfull := lmax
+	if c.thorough() {
+		rep = []int{0, 1, 2, 3, 5, 7, 10, 25, 33, 41, 50, 59, 64, 99, 100, 127, 128, 200, 255, 256}
+		lfull = 4
+	}
 	for _, ini := range inits {
 		for _, w1 := range ws {
 			for _, w2 := range ws {
+				for l1 := 0; l1 <= lfull; l1++ {
+					for l2 := 0; l2 <= lfull; l2++ {
+						c16case(c, ini, []int{w1, w2}, []int{l1, l2})
+					}
+				}
+			}
+		}
+		for _, w1 := range rep {
+			for _, w2 := range rep {
 				for l1 := 0; l1 <= lmax; l1++ {
 					for l2 := 0; l2 <= lmax; l2++ {
-						c16case(c, ini, []int{w1, w2}, []int{l1, l2})
+						if l1 > lfull || l2 > lfull {
+							c16case(c, ini, []int{w1, w2}, []int{l1, l2})
+						}
 					}
 				}
 			}
@@ -119,4 +141,6 @@ func runC16(c *ctx) {
 		}
 		c16case(c, ini, w, l)
 	}
+	// the two callers (gateway createBackend, blue/green annotation): c16callers.go
+	runC16Callers(c)
 }
